@@ -136,6 +136,11 @@ impl BricksDomain {
                         else if current_brick.get_sequence() == next_brick.get_sequence()
                             && current_brick.get_min() == 0
                             && next_brick.get_min() == 0
+                            // The sum of the upper bounds must not overflow (max = u32::MAX after widening).
+                            && current_brick
+                                .get_max()
+                                .checked_add(next_brick.get_max())
+                                .is_some()
                         {
                             let merged_brick =
                                 current_brick.merge_bricks_with_equal_content(next_brick);
